@@ -7,7 +7,8 @@ import effects
 
 TECHNIQUE = ("heap-ownership typestate with inferred inter-procedural outcome summaries over every allocation path (leak / double release / release after "
              "hand-over / use after release / unchecked allocation), allocate-before-mutate ordering in the growth routines, request typestate restricted "
-             "to OOM paths, who-may-call census of libc allocation")
+             "to OOM paths, who-may-call census of libc allocation"
+             ", path search from every unlink of a request to a settle event with result-edge refinement, loop-exit vocabulary of the requeue flush, release-loop inference of (array, count) pairs with element-null edge refinement")
 LEVEL_TEXT = ("static: decides, for every allocation site and every CFG path including the LCOV_EXCL OOM unwinds, that the result is checked before use, "
               "that nothing the function owns is dropped or released twice on any exit, that consuming functions consume on every path, that the "
               "container growth routines allocate before they mutate and restore their size on failure, that requests are still disposed exactly once "
